@@ -30,6 +30,13 @@ def gen(rng, tier, no, wide=False):
         for e in rng.sample(xs, min(len(xs), rng.randint(1, 4))):
             e["dur"] += 1
         case["params"]["jitter"] = True
+    if rng.random() < 0.3:
+        # operator names that a text round trip may mistake for "missing" (the archive holds the frame as CSV), or that
+        # shorten to an empty string
+        xs = [e for e in case["ranks"][case["params"]["rank"]] if e.get("ph") == "X" and e.get("cat") == "cpu_op"]
+        for e in rng.sample(xs, min(len(xs), rng.randint(1, 5))):
+            e["name"] = rng.choice(["<forward op>", "None", "NA", "null", "nan", "(anonymous)", "N/A", "<unknown>", ""])
+        case["params"]["odd_names"] = True
     case["params"]["cycles"] = rng.choice([1, 1, 2, 3])
     # a history over two directory names: saves, restores and what-if modifications of the current graph in between
     hist = []
